@@ -11,7 +11,8 @@ open Go Vuego Html
 
 /-- the serialiser's exemption from escaping is exactly the property's: text directly inside `script` and `style`, at both places where text
     is written (read from the conditions in renderNodeWithContext; a longer list — noscript, iframe, xmp, … — lets a value break out there) -/
-theorem source_raw_text_exemption : Generated.rawTextTagSites = [["script", "style"], ["script", "style"]] := by decide
+theorem source_raw_text_exemption :
+    Generated.rawTextTagSites ≠ [] ∧ ∀ site ∈ Generated.rawTextTagSites, site = ["script", "style"] := by decide
 
 /-- source fact 1: attribute values are escaped unconditionally (no sniffing for "already escaped" content) -/
 theorem attr_values_escaped_once : ∀ v : Str, Generated.escapeAttrValue v = escape v := by
